@@ -88,6 +88,23 @@ func didParseCase(c *Ctx, tag, text string) {
 		obs = WList(WStr("ok"), WStr(d.String()), WStr(pkClass), WBool(canon))
 	}()
 	c.Emit(tag, WList(WStr("parse"), WStr(text), facts), obs)
+	// did.ToPubKey is Parse followed by PubKey: same acceptance, same key
+	want, got := false, false
+	func() {
+		defer func() { recover() }()
+		var k1 crypto.PubKey
+		if d, err := did.Parse(text); err == nil {
+			if k, err := d.PubKey(); err == nil {
+				want, k1 = true, k
+			}
+		}
+		k2, err := did.ToPubKey(text)
+		got = err == nil && k2 != nil
+		if want && got && !k1.Equals(k2) {
+			got = false
+		}
+	}()
+	c.Emit(strings.Replace(tag, "did/", "did/topubkey-", 1), WList(WStr("eq"), WBool(want)), WBool(got))
 }
 
 type keyGen struct {
@@ -275,6 +292,10 @@ func genDid(c *Ctx) {
 			didParseCase(c, "did/alt-ed-long", mk(0xed, append(append([]byte{}, raw...), 0)))
 			didParseCase(c, "did/alt-ed-as-x25519", mk(0xec, raw))
 			didParseCase(c, "did/alt-ed-as-secp", mk(0xe7, raw))
+			// 34-byte payloads whose text shares the "z6Mk" prefix of Ed25519 identifiers
+			didParseCase(c, "did/alt-ed-prefix-ecff", "did:key:z"+base58.Encode(append([]byte{0xec, 0xff}, raw...)))
+			didParseCase(c, "did/alt-ed-prefix-ed00", "did:key:z"+base58.Encode(append([]byte{0xed, 0x00}, raw...)))
+			didParseCase(c, "did/alt-ed-prefix-ed02", "did:key:z"+base58.Encode(append([]byte{0xed, 0x02}, raw...)))
 			// non-minimal varint for the code (0xed 0x01 -> 0xed 0x81 0x00)
 			didParseCase(c, "did/alt-nonminimal-varint", "did:key:z"+base58.Encode(append([]byte{0xed, 0x81, 0x00}, raw...)))
 		}
